@@ -9,7 +9,9 @@ for s in "${seeds[@]}"; do
   s="${s%/}"
   checks=$(python3 -c "import json,sys; print(' '.join(json.load(open('$s/meta.json'))['checks']))" 2>/dev/null)
   [ -z "$checks" ] && checks="$(basename "$s" | cut -d- -f1)"
-  out=$(MUT_SKIP_TESTS=1 MUT_SHOW=2 timeout 3000 tools/mut.sh "$s/patch.diff" $checks 2>&1)
-  echo "$out" | grep "^== " | while read -r line; do echo "$(basename "$s") $line"; done
-  echo "$out" | grep "^violation" | head -3 | sed "s/^/    /" | cut -c1-220
+  for c in $checks; do
+    out=$(MUT_SKIP_TESTS=1 MUT_SHOW=3 timeout 3000 tools/mut.sh "$s/patch.diff" $c 2>&1)
+    echo "$out" | grep "^== " | while read -r line; do echo "$(basename "$s") $line"; done
+    echo "$out" | grep "^violation" | head -3 | sed "s/^/    /" | cut -c1-220
+  done
 done
